@@ -891,7 +891,7 @@ func (env *Env) evalCall(e *SCall) (Val, error) {
 			if err != nil {
 				return Val{}, err
 			}
-			if x.Loc == nil {
+			if x.Loc == nil || (x.Typ != nil && derefType(x.Typ) != nil) {
 				if x.Typ != nil && derefType(x.Typ) != nil {
 					// pointer to a lock
 					return Val{T: fr.lockHeld(env.st, &Loc{Kind: "cell", Base: x.T}, id.Name == "rheld")}, nil
